@@ -295,9 +295,9 @@ def ob_chain_selection(ctx: Ctx) -> Outcome:
     if any(g.startswith("?") for g in got):
         return Outcome.undecided("ast-shape", f"compile_chain has statements outside the selection shape: {got}")
     from props import C13_b
+    from verif.common import shape_verdict
 
-    failed, text = C13_b.replay_selection()
-    return Outcome.refuted("ast-shape", [Witness(what=f"compile_chain's priority order is {got}, the property's rule is {want}; {text}", key="selection-order", input=got, replay={"runner": "props.C13_b:replay_selection", "args": {}}, confirmed=failed)], count=len(want))
+    return shape_verdict("ast-shape", [f"compile_chain's priority order is {got}, the property's rule is {want}"], C13_b.replay_selection, len(want), {"runner": "props.C13_b:replay_selection", "args": {}})
 
 
 # ---- F2: CONST / ENUM literals are emit_value spellings ---------------------------------------------------------------------
@@ -323,7 +323,9 @@ def ob_literal_spelling(ctx: Ctx) -> Outcome:
         failed, text = C13_b.replay_spelling()
         wits.append(Witness(what=f"_compile_enum does not spell the members with emit_value + _escape_literal; {text}", key="enum-spelling", input=se[-200:], replay={"runner": "props.C13_b:replay_spelling", "args": {}}, confirmed=failed))
     if wits:
-        return Outcome.refuted("ast-shape", wits, count=2)
+        from verif.common import shape_verdict
+
+        return shape_verdict("ast-shape", [w.what.split(";")[0] for w in wits], C13_b.replay_spelling, 2, {"runner": "props.C13_b:replay_spelling", "args": {}})
     return Outcome.ok("ast-shape", count=2)
 
 
